@@ -508,7 +508,7 @@ def build_driver_all_areas(ctx):
     return ctx.build_driver()
 
 
-def run(ctx):
+def run_area(ctx):
     ctx.prove(["Qentem.Props.C14"], THEOREMS)
     drv = build_driver_all_areas(ctx)
     h_x = ctx.build_harness("seq_harness.cpp", tag="san_exact")
@@ -569,6 +569,12 @@ def run(ctx):
                         "char comparisons use units < 128 (signedness of char is C15's subject)",
                         "cells handed out uninitialised (String(len), Buffer, SetLength) are written by the caller before they are read",
                         "Array<owning> += Move(itself) is not exercised (it leaks its items; self-move is outside the modelled contract)"]
+
+
+def run(ctx):
+    run_area(ctx)
+    from checks import _arraytree
+    _arraytree.run(ctx)
 
 
 FINISH = dict(level="proof",
